@@ -80,9 +80,31 @@ def confirm(run, exe, name, out, finding, k):
     return False, path, "not reproduced: " + str(res["mismatch"])
 
 
-def run_harness_env(exe, args, env, timeout=3000):
+def explore_budget(run):
+    """seconds one exploratory harness call (after a divergence) may take: exploration is a bonus on top of the lock-step replays, and a change
+    that makes every schedule long (loopers, re-sequenced fast paths) must not turn a three-minute check into a forty-minute one"""
+    return int(os.environ.get("VERIF_EXPLORE_BUDGET", "60" if run.tier == "quick" else "1200"))
+
+
+_explore_spent = [0.0]
+
+
+def explore_allowed(run):
+    """exploration after divergences has a total allowance per check as well (quick: 8 minutes): the first diverging configurations get it"""
+    cap = float(os.environ.get("VERIF_EXPLORE_TOTAL", "480" if run.tier == "quick" else "7200"))
+    if _explore_spent[0] > cap:
+        if not run.cov.get("exploration_allowance_used_up"):
+            run.note("the allowance for exploration after divergences (%d s) is used up: further diverging configurations are reported as divergences only" % cap)
+        run.cov["exploration_allowance_used_up"] = True
+        return False
+    return True
+
+
+def run_harness_env(exe, args, env, timeout=3000, soft=False):
     import subprocess
     r = subprocess.run(["timeout", str(timeout), exe] + list(args), stdout=subprocess.PIPE, stderr=subprocess.PIPE, text=True, env=env)
+    if soft and r.returncode == 124:
+        r.returncode = 1 if "VIOL " in r.stdout else 0        # out of budget: what was found so far stands
     res = {"stats": {}, "viols": [], "mismatch": None, "ords": [], "rc": r.returncode, "out": r.stdout, "err": r.stderr, "lines": [], "maxsleeps": 0}
     for line in r.stdout.splitlines():
         if line.startswith("STATS "):
@@ -297,7 +319,7 @@ ALWAYS = {"O-crash"}
 def continue_divergences(run, exe, name, out, wanted_or, per_file=None):
     per_file = per_file or (3000 if run.tier == "quick" else 60000)
     for k, df in enumerate(out["res"].get("divfiles", [])[:6]):
-        resz = run_harness_env(exe, ["from", df, str(per_file), str(seed() + 20 + k), REPLAYS], out["env"])
+        resz = run_harness_env(exe, ["from", df, str(per_file), str(seed() + 20 + k), REPLAYS], out["env"], timeout=max(30, explore_budget(run) // 3), soft=True)
         run.add("evaluations", per_file)
         run.cov.setdefault("continued_divergences", []).append({"config": name, "runs": per_file, "violations": len(resz["viols"])})
         for v in resz["viols"]:
@@ -318,7 +340,7 @@ def preemption_bounded(run, exe, name, init, nthreads, env, wanted_or, ignore=()
     open(pf, "w").write("T 1 %s%s\nE\n" % (pre, init))
     bound = 2 if nthreads <= 2 else 1
     cap = 60000 if run.tier == "quick" else 600000
-    res = run_harness_env(exe, ["pb", pf, str(bound), str(cap), REPLAYS], e)
+    res = run_harness_env(exe, ["pb", pf, str(bound), str(cap), REPLAYS], e, timeout=explore_budget(run), soft=True)
     os.unlink(pf)
     run.add("evaluations", res["stats"].get("tours", 0))
     run.cov.setdefault("preemption_bounded", []).append({"config": name, "bound": bound, "schedules": res["stats"].get("tours", 0), "violations": len(res["viols"])})
@@ -375,13 +397,14 @@ def run_family(run, exe, prop, configs, parallel=5, workers=3, env=None, cap_tou
         foreign_ls = sorted(({v[0] for v in out["res"]["viols"]} | {x.split()[1].split("|")[0] for x in out["res"].get("soft", []) if len(x.split()) > 1}) - set(wanted_or) - {"O-crash", "O-harness"})
         if out["res"].get("soft"):
             run.note("oracle of another property counted in %s (the replays went on): %s" % (name, out["res"]["soft"][0][:200]))
-        if out["res"]["mismatch"] or foreign_ls:
+        if (out["res"]["mismatch"] or foreign_ls) and explore_allowed(run):
+            _t_ex = time.time()
             # DESIGN 3.7: a divergence is not a violation; it triggers extra exploration of that configuration, judged by oracles only:
             # (1) the diverging behaviours themselves, continued from the point of divergence with random schedules
             continue_divergences(run, exe_bin if conf.get("Binary") else exe, name, out, wanted_or)
             # (2) the configuration from its initial state
             nloc = 20000 if run.tier == "quick" else 300000
-            resx = run_harness_env(exe_bin if conf.get("Binary") else exe, ["random", str(nloc), str(seed() + 7), out["init"], REPLAYS], out["env"])
+            resx = run_harness_env(exe_bin if conf.get("Binary") else exe, ["random", str(nloc), str(seed() + 7), out["init"], REPLAYS], out["env"], timeout=explore_budget(run), soft=True)
             run.add("evaluations", nloc); run.add("distinct_nontrivial", resx["stats"].get("nontrivial", 0))
             run.cov.setdefault("local_exploration_after_divergence", []).append({"config": name, "runs": nloc, "violations": len(resx["viols"])})
             hit = False
@@ -394,7 +417,7 @@ def run_family(run, exe, prop, configs, parallel=5, workers=3, env=None, cap_tou
             if foreign and not hit:
                 # only another property's oracle fired: switch it off and see what the fault does to this property; plain accesses to shared
                 # memory become scheduling points too, since the fault may be a race between plain accesses
-                resy = run_harness_env(exe_bin if conf.get("Binary") else exe, ["random", str(nloc * 10), str(seed() + 8), "plain=1 ignore=%s " % ",".join(foreign) + out["init"], REPLAYS], dict(out["env"], VERIF_IGNORE=",".join(foreign), VERIF_PLAIN="1"))
+                resy = run_harness_env(exe_bin if conf.get("Binary") else exe, ["random", str(nloc * 10), str(seed() + 8), "plain=1 ignore=%s " % ",".join(foreign) + out["init"], REPLAYS], dict(out["env"], VERIF_IGNORE=",".join(foreign), VERIF_PLAIN="1"), timeout=explore_budget(run), soft=True)
                 run.add("evaluations", nloc * 10)
                 run.cov["local_exploration_after_divergence"].append({"config": name, "runs": nloc * 10, "violations": len(resy["viols"]), "ignoring": foreign})
                 for v in resy["viols"]:
@@ -403,6 +426,7 @@ def run_family(run, exe, prop, configs, parallel=5, workers=3, env=None, cap_tou
             # (3) systematically: every schedule of the configuration with at most two preemptions (one for three threads and more), at the
             #     granularity of plain accesses: a window of a few instructions is one of the enumerated points, not a matter of luck
             preemption_bounded(run, exe_bin if conf.get("Binary") else exe, name, out["init"], len(conf["progs"]), out["env"], wanted_or, foreign if (foreign and not hit) else [])
+            _explore_spent[0] += time.time() - _t_ex
         try:
             os.unlink(out["sched"])
         except OSError:
